@@ -268,6 +268,9 @@ class VT:
             raise Unsupported(e, "unbound name")
         if isinstance(e, ast.Attribute):
             return self.attribute(e, env)
+        if isinstance(e, ast.UnaryOp) and isinstance(e.op, ast.USub) and isinstance(e.operand, ast.Constant) \
+                and isinstance(e.operand.value, int) and not isinstance(e.operand.value, bool):
+            return f"(-{e.operand.value})%Z", "Z"
         if isinstance(e, ast.UnaryOp) and isinstance(e.op, ast.Not):
             t, ty = self.expr(e.operand, env)
             self.need(ty, "bool", e)
@@ -408,10 +411,18 @@ class VT:
         x, xt = self.expr(e.value, env)
         if isinstance(e.slice, ast.Slice):
             s = e.slice
-            if is_list(xt) and s.upper is None and s.step is None and isinstance(s.lower, ast.Constant) \
-                    and isinstance(s.lower.value, int) and not isinstance(s.lower.value, bool) and s.lower.value >= 0:
-                return f"(skipn {s.lower.value} {x})", xt
-            raise Unsupported(e, "slice other than xs[<non-negative literal>:]")
+
+            def lit(n):
+                return n is None or (isinstance(n, ast.Constant) and isinstance(n.value, int)
+                                     and not isinstance(n.value, bool) and n.value >= 0)
+
+            if is_list(xt) and s.step is None and lit(s.lower) and lit(s.upper):
+                lo = s.lower.value if s.lower is not None else 0
+                t = f"(skipn {lo} {x})" if lo else x
+                if s.upper is not None:
+                    t = f"(firstn {max(0, s.upper.value - lo)} {t})"
+                return t, xt
+            raise Unsupported(e, "slice other than xs[<non-negative literal>:<non-negative literal>]")
         kv = dict_kv(xt)
         if kv and not unknown(xt):
             k, kt = self.expr(e.slice, env)
@@ -606,6 +617,13 @@ class VT:
             tg = s.targets[0]
             if isinstance(tg, ast.Name):
                 return self.assign_name(tg.id, s, rest, env, k)
+            if isinstance(tg, ast.Tuple) and all(isinstance(x, ast.Name) for x in tg.elts):
+                t, ty = self.expr(s.value, env)
+                binds = env.take()
+                if any(x.id == "self" or (x.id != "_" and env.types.get(x.id, "").startswith("(pydict")) for x in tg.elts):
+                    raise Unsupported(s, "tuple assignment to self / over a dict variable")
+                pat = self.pattern(tg, ty, env, s)
+                return wrap(binds, f"let {pat} := {t} in\n    {self.block(rest, env, k)}")
             if isinstance(tg, ast.Attribute) and isinstance(tg.value, ast.Name) and tg.value.id == "self" \
                     and env.method == "init":
                 t, ty = self.expr(s.value, env)
